@@ -469,9 +469,9 @@ var _ = bytes.Compare
 
 func init() {
 	mc.Register(&mc.Property{
-		ID:    "C11",
-		Level: "model_checking",
-		Rule: "explicit-state search with a sorted map as reference model: all 27 states of 3 keys x {absent,x,y}; from every state every single-operation batch (put-if-absent, CAS x 3 expectations incl. a missing key, put, delete), every ordered two-operation batch, Get, Del, DelCurrent through a fresh and a stale iterator (direct and inside a batch), every iterator (start,end) over 7 positions in both directions with limits 0..2, and the snapshot test (iterator opened, advanced, each batch committed, drained); on memkv, badger, tikv-mock and each behind the metrics wrapper; result class and full contents compared after every transition",
+		ID:     "C11",
+		Level:  "model_checking",
+		Rule:   "explicit-state search with a sorted map as reference model: all 27 states of 3 keys x {absent,x,y}; from every state every single-operation batch (put-if-absent, CAS x 3 expectations incl. a missing key, put, delete), every ordered two-operation batch, Get, Del, DelCurrent through a fresh and a stale iterator (direct and inside a batch), every iterator (start,end) over 7 positions in both directions with limits 0..2, and the snapshot test (iterator opened, advanced, each batch committed, drained); on memkv, badger, tikv-mock and each behind the metrics wrapper; result class and full contents compared after every transition",
 		Assume: []string{"sequential use of one engine instance; engines run free (no scheduler)", "TTL arguments are 0"},
 		Exec:   c11Exec,
 		Drive: func(c *mc.Ctx) {
